@@ -6,6 +6,8 @@ import VrpModel.C03U
   reader's inverse table (`map_reason_code`) is its inverse (`reason_roundtrip`, `code_roundtrip`, by evaluation of the
   generated table - re-proved whenever the source changes);
 * `createUnassigned_ids`: every plan job of the solver's unassigned list is rendered exactly once, in order, and nothing else;
+* `detailedReasons_cover`: the details of all reasons of one job together are exactly the recorded (vehicle shift, code) pairs
+  (grouping by code through `sum_groups`: the groups of the distinct keys cover a list exactly);
 * `reasonsOf_nonempty`: every entry carries at least one reason; `reasons_from_table`: every reason is a row of the table or the
   default `NO_REASON_FOUND`.
 -/
@@ -68,6 +70,92 @@ theorem reasonsOf_nonempty (i : UInfo) : reasonsOf i ≠ [] := by
       unfold detailedReasons at h1
       simp only [sortBy_length, List.length_map, List.length_nil] at h1
       exact codesOf_ne_nil l hl (List.length_eq_zero_iff.mp h1)
+
+theorem insertSorted_sum {α : Type} (le : α → α → Bool) (f : α → Nat) (x : α) (l : List α) :
+    ((insertSorted le x l).map f).sum = f x + (l.map f).sum := by
+  induction l with
+  | nil => rfl
+  | cons y r ih =>
+    unfold insertSorted
+    split
+    · rfl
+    · simp only [List.map_cons, List.sum_cons, ih]; omega
+
+theorem sortBy_sum {α : Type} (le : α → α → Bool) (f : α → Nat) (l : List α) : ((sortBy le l).map f).sum = (l.map f).sum := by
+  induction l with
+  | nil => rfl
+  | cons x r ih =>
+    show ((insertSorted le x (sortBy le r)).map f).sum = _
+    rw [insertSorted_sum, ih, List.map_cons, List.sum_cons]
+
+/-- grouping by a key: the groups of the distinct keys cover the list exactly -/
+theorem sum_groups (ks : List Nat) :
+    ∀ (n : Nat), ks.length ≤ n → ((ks.eraseDups).map (fun c => ks.countP (· == c))).sum = ks.length := by
+  intro n
+  induction n generalizing ks with
+  | zero =>
+    intro h
+    have : ks = [] := List.length_eq_zero_iff.mp (by omega)
+    subst this; rfl
+  | succ n ih =>
+    intro h
+    cases ks with
+    | nil => rfl
+    | cons a r =>
+      rw [List.eraseDups_cons]
+      simp only [List.map_cons, List.sum_cons, List.countP_cons, beq_self_eq_true, if_true]
+      have hlen : (r.filter (fun b => !b == a)).length ≤ n := by
+        have := List.length_filter_le (fun b => !b == a) r
+        simp only [List.length_cons] at h
+        omega
+      have ih' := ih (r.filter (fun b => !b == a)) hlen
+      -- the groups of the other keys do not see `a`
+      have hmap : ((r.filter (fun b => !b == a)).eraseDups).map (fun c => List.countP (fun x => x == c) r + if (a == c) = true then 1 else 0)
+          = ((r.filter (fun b => !b == a)).eraseDups).map (fun c => (r.filter (fun b => !b == a)).countP (· == c)) := by
+        apply List.map_congr_left
+        intro c hc
+        have hc' : c ∈ r.filter (fun b => !b == a) := List.mem_eraseDups.mp hc
+        have hca : (c == a) = false := by
+          have := (List.mem_filter.mp hc').2
+          simpa using this
+        have hne : c ≠ a := by
+          intro e; subst e; simp at hca
+        have hac : (a == c) = false := by
+          cases h' : (a == c) with
+          | false => rfl
+          | true => exact absurd (beq_iff_eq.mp h').symm hne
+        simp only [hac, Bool.false_eq_true, if_false, Nat.add_zero]
+        rw [List.countP_filter]
+        apply List.countP_congr
+        intro x _
+        by_cases hx : x = c
+        · subst hx; simp [hca]
+        · simp [hx]
+      rw [hmap, ih']
+      have h1 := List.length_eq_countP_add_countP (l := r) (fun b => !b == a)
+      have e : List.countP (fun a_1 => decide ¬(!a_1 == a) = true) r = List.countP (fun x => x == a) r := by
+        apply List.countP_congr; intro x _; simp
+      rw [e] at h1
+      rw [List.countP_eq_length_filter] at h1
+      simp only [List.length_cons]
+      omega
+
+/-- **no vehicle shift is lost or duplicated by the grouping**: the details of all reasons of a job together are exactly the
+    (vehicle shift, code) pairs the solver recorded -/
+theorem detailedReasons_cover (l : List (String × Nat × Nat)) :
+    ((detailedReasons l).map (fun r => (r.details.getD []).length)).sum = l.length := by
+  unfold detailedReasons
+  rw [sortBy_sum, List.map_map]
+  have := sum_groups (l.map (·.2.2)) _ (Nat.le_refl _)
+  simp only [List.length_map] at this
+  unfold codesOf
+  rw [← this]
+  congr 1
+  apply List.map_congr_left
+  intro c _
+  simp only [Function.comp, Option.getD_some, sortBy_length, List.length_map, List.countP_map]
+  rw [List.countP_eq_length_filter]
+  rfl
 
 /-- non-vacuity: two vehicles refuse a job for capacity, one for its time window -/
 example : reasonsOf (.detailed [("v2", 0, 4), ("v1", 1, 1), ("v1", 0, 4)])
